@@ -925,6 +925,11 @@ func (r *efRun) instr(p *PState, ins ssa.Instruction) bool {
 			s.tested[involved] = true
 			// EOF interpretation sites are recorded when the equal edge is taken (see branch)
 		}
+		if involved != nil {
+			// from here on the error has been looked at: an unrelated condition decided earlier no
+			// longer excuses what is returned later on this path
+			delete(s.other, involved)
+		}
 		for v := range s.defined {
 			// an unrelated condition decided before the error was looked at (declared size
 			// exceeded AND the read failed) may choose a different error; once the error is known
